@@ -281,7 +281,7 @@ REQUIRED = {
     "files_accepted_by_both": 2,
 }
 REQUIRED_THOROUGH = {k: v * 20 for k, v in REQUIRED.items() if not k.startswith("files")}
-REQUIRED_THOROUGH.update({"judged-form:imply": 20, "judged-form:untyped-parameter": 0, "files_accepted_by_both": 2})
+REQUIRED_THOROUGH.update({"judged-form:imply": 20, "files_accepted_by_both": 2})
 
 
 def thresholds(m):
